@@ -203,6 +203,19 @@ def run(ctx):
     reps = []
     for part in pmap(chunk_run, chunks):
         reps += part
+    # a slice of the same Merge calls in a worker built with the race detector
+    from . import race
+    rb = race.build(ctx, worker=True)
+    rl = race.logdir(ctx, "worker")
+    n_rl = 500 if ctx.tier == "quick" else 10000
+    rreqs = [{"id": i, "do": "rules", "text": "".join("  " + rulegen.canon(r) + "\n" for r in lst) + "\n", "pipeline": ["merge", "merge"], "stages": True}
+             for i, (st, lst) in enumerate(lists[:n_rl])]
+    rreps = worker.run_isolating(ctx, "aa", rreqs, lambda r, e: None, timeout=1800, bindir=rb, extra_env={"GORACE": race.gorace(rl)})
+    for (st, lst), rep, rr in zip(lists[:n_rl], reps[:n_rl], rreps):
+        if "ok" in rep and "ok" in rr and rep["ok"]["stages"][0]["text"] != rr["ok"]["stages"][0]["text"]:
+            viol("C10/merge-differs-under-race-detector", "the same Merge call gives another result in the worker built with -race: %s" % [rulegen.canon(r) for r in lst][:4],
+                 {"list": [rulegen.canon(r) for r in lst]})
+    race.judge(ctx, "C10", rl, "worker, %d Merge calls" % len(rreqs), 1)
     programs = 0
     disagreements = 0
     todo = []
